@@ -195,3 +195,44 @@ pub fn parse_args(mut it: impl Iterator<Item = String>) -> Args {
     }
     a
 }
+
+
+/// Path components that have bitten a file-synchronisation tool before: spaces, quotes, shell and glob metacharacters,
+/// backslashes, leading dashes and dots, names that start like the tool's own control names, multi-byte characters with
+/// every ASCII prefix length (so that some character straddles any fixed byte offset), upper/lower twins, long names.
+/// No '/', NUL, newline or tab (line-oriented plan output is parsed by the harnesses).
+pub fn hostile_components() -> Vec<String> {
+    let mut v: Vec<String> = ["f", "g", "a b", "it's", "say \"hi\"", "é", "日本", "a日本", "ab日本", "-dash", "--", "x*y", "q?", "[br]", "a\\b", "$HOME", "`id`", "a;b",
+        ".hidden", ".copiarc", ".copia-hooks", "copia-tmp", "x.copia-tm", "conflict", "F", "G", "a.b", "a-b", "a+", "a,b", "~", "#x", "%41", "a&b", "(p)", "100%", "ü"]
+        .iter().map(|s| s.to_string()).collect();
+    v.push("n".repeat(200));
+    v.push(format!("a{}", "é".repeat(100)));
+    v.push("日".repeat(66));
+    v
+}
+
+/// a set of `n` relative paths over `hostile_components`, with at most two directory levels, in which no path is a
+/// directory prefix of another (trees of regular files); one path in three gets a sibling that differs from a
+/// directory name only by a byte below '/' appended (`d/x` next to `d.y`, `d-z`, `d w`): byte order and path order differ
+pub fn hostile_paths(r: &mut Rng, n: usize) -> Vec<String> {
+    let comps = hostile_components();
+    let mut out: Vec<String> = vec![];
+    let clash = |p: &String, out: &Vec<String>| out.iter().any(|q| q == p || q.starts_with(&format!("{}/", p)) || p.starts_with(&format!("{}/", q)));
+    let mut guard = 0;
+    while out.len() < n && guard < 1000 {
+        guard += 1;
+        let p = match r.below(4) {
+            0 | 1 => r.pick(&comps).clone(),
+            2 => format!("{}/{}", r.pick(&comps[..30]), r.pick(&comps[..30])),
+            _ => {
+                // a sibling of an existing directory that differs by one low byte
+                let dirs: Vec<String> = out.iter().filter_map(|q| q.split_once('/').map(|(d, _)| d.to_string())).collect();
+                if dirs.is_empty() { format!("{}/{}", r.pick(&comps[..30]), r.pick(&comps[..30])) } else { format!("{}{}{}", r.pick(&dirs), r.pick(&[".", "-", " ", "+", "!"]), r.pick(&["x", "y", ""])) }
+            }
+        };
+        // (a component that ends or starts with a blank is left to the one-way harness, whose plan parser copes with it)
+        if p.is_empty() || p.len() > 240 || p.ends_with(".copia-tmp") || p.split('/').any(|c| c.starts_with(' ') || c.ends_with(' ')) || clash(&p, &out) { continue; }
+        out.push(p);
+    }
+    out
+}
